@@ -22,7 +22,7 @@ let run_seq red (toks : string list) : string =
         | "M" -> Model.mulin true x red x
         | "D" -> get (Model.divin true x red x)
         | "n" -> Model.q_negin x
-        | "i" -> Model.q_invin x
+        | "i" -> get (Model.q_invin_g x)
         | "N" -> Model.rneg x
         | "t" -> Model.radd red x y
         | "u" -> Model.rsub red x y
@@ -40,7 +40,7 @@ let run_seq red (toks : string list) : string =
 let run_qw red (name : string) (pat : string) (args : string list) : string =
   let np = String.length pat in
   let idx i = z_of_za (ZA.of_int (Char.code pat.[i] - Char.code '0')) in
-  let inpl = List.mem name ["axpyin"; "maxpyin"; "axmyin"; "addin"; "subin"; "mulin"; "divin"] in
+  let inpl = List.mem name ["axpyin"; "maxpyin"; "axmyin"; "addin"; "subin"; "mulin"; "divin"; "negin"; "invin"] in
   let st = ref (fun (_ : Model.z) -> ((zs "7", zs "5") : Model.rat)) in
   let rec fill i = function
     | n :: d :: rest when i < np -> st := Model.upd !st (idx i) (zs n, zs d); fill (i + 1) rest
@@ -65,7 +65,9 @@ let run_qw red (name : string) (pat : string) (args : string list) : string =
    | "mulin", 2 -> out (Model.exec_mulin red s (p 0) (p 1))
    | "divin", 2 -> (match Model.exec_divin red s (p 0) (p 1) with Some s' -> out s' | None -> "THROW")
    | "neg", 2 -> out (Model.exec_neg s (p 0) (p 1))
-   | "inv", 2 -> out (Model.exec_inv s (p 0) (p 1))
+   | "inv", 2 -> (match Model.exec_inv s (p 0) (p 1) with Some s' -> out s' | None -> "THROW")
+   | "negin", 1 -> out (Model.exec_negin s (p 0))
+   | "invin", 1 -> (match Model.exec_invin s (p 0) with Some s' -> out s' | None -> "THROW")
    | "assign", 2 -> out (Model.exec_assign s (p 0) (p 1))
    | _ -> "UNKNOWN-QW-OP")
 let () = run_lines (fun toks ->
@@ -109,7 +111,7 @@ let () = run_lines (fun toks ->
      | "subin" -> pr (Model.subin (b 0) (if b 0 then r 1 else r 3) red (r 1))
      | "mulin" -> pr (Model.mulin (b 0) (if b 0 then r 1 else r 3) red (r 1))
      | "divin" -> po (Model.divin (b 0) (if b 0 then r 1 else r 3) red (r 1))
-     | "conv_int" -> pz (Model.conv_int (r 0))
+     | "conv_int" -> (match Model.conv_int_T a.(0) a.(1) (r 2) with Some v -> pz v | None -> "OUT-OF-RANGE")
      | "print" -> (match Model.print_den (r 0) with Some d -> pz (fst (r 0)) ^ "/" ^ pz d | None -> pz (fst (r 0)))
      | "string" -> pz (fst (r 0)) ^ "/" ^ pz (snd (r 0))
      | "mod" -> (match Model.rmod (r 0) a.(2) with None -> "THROW" | Some None -> "NOINV" | Some (Some v) -> pz v)
@@ -125,7 +127,7 @@ let () = run_lines (fun toks ->
      | "floor" -> pz (Model.floor (r 0))
      | "ceil" -> pz (Model.ceil (r 0))
      | "round" -> pz (Model.round (r 0))
-     | "pow_i64" -> pr (Model.pow_i64 (r 0) a.(2))
+     | "pow_i64" -> po (Model.pow_i64_g (r 0) a.(2))
      | "pow_u" -> pr (Model.pow_u (r 0) a.(2))
      | "cmpall" ->
        let x = r 0 and y = r 2 in
@@ -145,8 +147,8 @@ let () = run_lines (fun toks ->
      | "q_maxpyin" -> pr (Model.q_maxpyin red (r 0) (r 2) (r 4))
      | "q_neg" -> pr (Model.q_neg (r 0))
      | "q_negin" -> pr (Model.q_negin (r 0))
-     | "q_inv" -> pr (Model.q_inv (b 0) (r 1))
-     | "q_invin" -> pr (Model.q_invin (r 0))
+     | "q_inv" -> po (Model.q_inv_g (b 0) (r 1))
+     | "q_invin" -> po (Model.q_invin_g (r 0))
      | "q_preds" ->
        let x = r 0 and y = r 2 in
        String.concat " " [pb (Model.q_isZero x); pb (Model.q_isOne x); pb (Model.q_isMOne x);
